@@ -14,6 +14,7 @@ import (
 	"os"
 	"strings"
 	"testing"
+	"time"
 )
 
 type opFunc func(args []string) string
@@ -91,7 +92,23 @@ func TestVerifHarness(t *testing.T) {
 		if strings.TrimSpace(line) == "" {
 			continue
 		}
-		res := vExec(line)
+		// watchdog: an op that does not come back (a lock that is never released, a loop that never ends) must not
+		// hang the whole run. The process exits WITHOUT a result line for this op: the runner attributes the death to
+		// it ("process-died") and runs the remaining ops in a new process.
+		resCh := make(chan string, 1)
+		go func(l string) { resCh <- vExec(l) }(line)
+		var res string
+		select {
+		case res = <-resCh:
+		case <-time.After(90 * time.Second):
+			w.Flush()
+			head := line
+			if len(head) > 200 {
+				head = head[:200]
+			}
+			fmt.Fprintln(os.Stderr, "verif-watchdog: op did not return within 90s (stalled): "+head)
+			os.Exit(3)
+		}
 		w.WriteString(res)
 		w.WriteString("\n")
 		n++
